@@ -3,7 +3,7 @@
 import json, os, shutil, sys
 V = os.path.dirname(os.path.dirname(os.path.abspath(__file__)))
 prop, slug, expect, note, ran = sys.argv[1:6]
-src = "/tmp/out-%s" % prop
+src = os.environ.get("SEED_SRC") or "/tmp/out-%s" % prop
 dst = os.path.join(V, "seeded", "%s-%s" % (prop, slug))
 if os.path.exists(dst):
     shutil.rmtree(dst)
